@@ -377,7 +377,10 @@ type vfC13Server struct {
 }
 
 func vfC13StartServer(dir string) *vfC13Server {
-	in, err := vfNewLeader(vfInstCfg{Dir: dir, Manual: true, NDb: 1, DBConcurrent: 2, FastKeys: 64})
+	// VERIF_C13_REALCLOCK=1 (debugging aid): real sweepers on the wall clock instead of the
+	// virtual second clock, to tell whether a crash needs the hybrid of virtual seconds and
+	// real millisecond timers
+	in, err := vfNewLeader(vfInstCfg{Dir: dir, Manual: os.Getenv("VERIF_C13_REALCLOCK") == "", NDb: 1, DBConcurrent: 2, FastKeys: 64})
 	if err != nil {
 		panic("vf: cannot start leader: " + err.Error())
 	}
@@ -631,9 +634,17 @@ func vfC13Child(env *vfEnv) {
 		}
 		// the virtual clock advances at input-determined points (so a subset of
 		// the inputs replays with the same clock behaviour per input)
-		syncClock()
-		if tr := vfCaseRand(env.Seed, "C13tick", i); tr.Chance(30) {
-			s.in.tick(1, tr)
+		if os.Getenv("VERIF_C13_REALCLOCK") != "" {
+			if last {
+				if w, _ := strconv.Atoi(os.Getenv("VERIF_C13_WAIT")); w > 0 {
+					time.Sleep(time.Duration(w) * time.Second)
+				}
+			}
+		} else {
+			syncClock()
+			if tr := vfCaseRand(env.Seed, "C13tick", i); tr.Chance(30) {
+				s.in.tick(1, tr)
+			}
 		}
 		if li%20 == 19 || last {
 			if err := cn.binRound(); err != nil {
